@@ -90,6 +90,7 @@ type stream struct {
 	chunkIdx int
 	chunkRem int
 	nreads   int
+	waiting  bool // the reader is blocked in read with an empty buffer
 	sink     bool // after the reader closed, writes succeed and are discarded
 	maxBuf   int  // 0 = unbounded; otherwise Write blocks while len(buf) >= maxBuf (back-pressure)
 }
@@ -121,8 +122,11 @@ func (s *stream) read(p []byte) (int, error) {
 	s.mu.Lock()
 	defer s.mu.Unlock()
 	for len(s.buf) == 0 && !s.wclosed && !s.rclosed {
+		s.waiting = true
+		s.cond.Broadcast()
 		s.cond.Wait()
 	}
+	s.waiting = false
 	if s.rclosed {
 		return 0, io.ErrClosedPipe
 	}
@@ -158,6 +162,16 @@ func (s *stream) read(p []byte) (int, error) {
 	return n, nil
 }
 
+// waitReaderIdle blocks until the reader has consumed everything written so far and is
+// blocked waiting for more (or has gone away). Event synchronisation, no clock.
+func (s *stream) waitReaderIdle() {
+	s.mu.Lock()
+	for !(s.waiting && len(s.buf) == 0) && !s.rclosed {
+		s.cond.Wait()
+	}
+	s.mu.Unlock()
+}
+
 func (s *stream) closeWrite() {
 	s.mu.Lock()
 	s.wclosed = true
@@ -181,6 +195,7 @@ type g4Conn struct {
 	wcond   *sync.Cond
 	record  bool
 	perturb *Rand // scheduler perturbation inside Write (under the muxer's send mutex)
+	holdCh  chan struct{} // when non-nil, every Write blocks until it is closed (a connection slow to accept writes)
 	once    sync.Once
 }
 
@@ -193,6 +208,9 @@ func newG4Conn(in, out *stream, record bool) *g4Conn {
 func (c *g4Conn) Read(p []byte) (int, error) { return c.in.read(p) }
 
 func (c *g4Conn) Write(p []byte) (int, error) {
+	if c.holdCh != nil {
+		<-c.holdCh
+	}
 	if c.perturb != nil {
 		c.wmu.Lock()
 		k := c.perturb.Intn(3)
